@@ -445,3 +445,38 @@ func peerLookupsDeep(p *core.Prog, f *ssa.Function) []lookupSite {
 	})
 	return out
 }
+
+// pruneBoolField vetoes the CFG edges that need the boolean field `name` (as
+// loaded in the function) to be !val: used for "assuming the option is set"
+// path rules.
+func pruneBoolField(name string, val bool) func(from, to *ssa.BasicBlock) bool {
+	return func(from, to *ssa.BasicBlock) bool {
+		if len(from.Instrs) == 0 || len(from.Succs) != 2 || from.Succs[0] == from.Succs[1] {
+			return false
+		}
+		ifi, ok := from.Instrs[len(from.Instrs)-1].(*ssa.If)
+		if !ok {
+			return false
+		}
+		cond := ifi.Cond
+		pol := true
+		for {
+			if u, isU := cond.(*ssa.UnOp); isU && u.Op == token.NOT {
+				cond = u.X
+				pol = !pol
+				continue
+			}
+			break
+		}
+		fl := core.LoadedField(cond)
+		if fl == nil || fl.Name() != name {
+			return false
+		}
+		// the true edge (Succs[0]) needs cond == true, i.e. field == pol
+		trueNeeds := pol
+		if to == from.Succs[0] {
+			return trueNeeds != val
+		}
+		return trueNeeds == val
+	}
+}
